@@ -10,20 +10,29 @@ Open Scope N_scope.
 
 Ltac tx := repeat rewrite <- app_assoc; reflexivity.
 
-(* token lemmas on a text that is only provably of the shape  blank ++ spelling ++ rest ; the queried kind last *)
-Lemma tokM c t b p rest k : t = b ++ p ++ rest -> blank b -> Lex p rest k -> forall k',
+(* token lemmas on a text that is only provably of the shape  blank ++ spelling ++ rest ; the walker position,
+   the text and the queried kind are found by matching the goal *)
+Lemma tokM b p rest k : Lex p rest k -> blank b -> forall c t, t = b ++ p ++ rest -> forall k',
   maybe_expect (W c t) k' = if tkind_eqb k' k then Some (W (c + bytes_len b + bytes_len p) rest, p) else None.
-Proof. intros -> Hb HL k'. apply tok_maybe; assumption. Qed.
-Lemma tokI c t b p rest k : t = b ++ p ++ rest -> blank b -> Lex p rest k -> forall k',
+Proof. intros HL Hb c t -> k'. apply tok_maybe; assumption. Qed.
+Lemma tokI b p rest k : Lex p rest k -> blank b -> forall c t, t = b ++ p ++ rest -> forall k',
   next_useful_is (W c t) k' = tkind_eqb k' k.
-Proof. intros -> Hb HL k'. apply tok_is; assumption. Qed.
-Lemma tokE c t b p rest k : t = b ++ p ++ rest -> blank b -> Lex p rest k ->
+Proof. intros HL Hb c t -> k'. apply tok_is; assumption. Qed.
+Lemma tokE b p rest k : Lex p rest k -> blank b -> forall c t, t = b ++ p ++ rest ->
   expect (W c t) k = POk p (W (c + bytes_len b + bytes_len p) rest).
-Proof. intros -> Hb HL. apply tok_expect; assumption. Qed.
-Lemma tokA c t b p rest k : t = b ++ p ++ rest -> blank b -> Lex p rest k -> at_linebreak (W c t) = false.
-Proof. intros -> Hb HL. apply (tok_atlb c b p rest k); assumption. Qed.
-Lemma tokL c t b p rest k : t = b ++ p ++ rest -> blank b -> Lex p rest k -> next_linebreak (fuel_of (W c t)) (W c t) = None.
-Proof. intros -> Hb HL. apply (tok_nolb c b p rest k); assumption. Qed.
+Proof. intros HL Hb c t ->. apply tok_expect; assumption. Qed.
+Lemma tokA b p rest k : Lex p rest k -> blank b -> forall c t, t = b ++ p ++ rest -> at_linebreak (W c t) = false.
+Proof. intros HL Hb c t ->. apply (tok_atlb c b p rest k); assumption. Qed.
+Lemma tokL b p rest k : Lex p rest k -> blank b -> forall c t, t = b ++ p ++ rest ->
+  next_linebreak (fuel_of (W c t)) (W c t) = None.
+Proof. intros HL Hb c t ->. apply (tok_nolb c b p rest k); assumption. Qed.
+
+Lemma PU g bad n dp s e : Parses g bad n dp s e -> forall b r, blank b ->
+  forall f d c t, t = b ++ s ++ r -> (n <= f)%nat -> (d + dp <= PARSE_DEPTH_MAX)%nat -> Follow bad r ->
+    g f d (W c t) = POk e (W (c + bytes_len b + bytes_len s) r).
+Proof. intros H b r Hb f d c t -> Hf Hd HF. apply H; assumption. Qed.
+
+Ltac side := first [ tx | assumption | solve [auto with rt] | lia ].
 
 Lemma follow_sp bad p rest k : Lex p rest k -> bad k = false -> Follow bad ([32] ++ p ++ rest).
 Proof. intros HL Hk. apply follow_tok with (k := k); auto with rt. reflexivity. Qed.
@@ -35,8 +44,10 @@ Proof.
 Qed.
 
 (* positions *)
+Lemma bytes_len_cons2 x y l : bytes_len (x :: y :: l) = bytes_len [x] + bytes_len (y :: l).
+Proof. cbn [bytes_len]. lia. Qed.
 Ltac posnorm :=
-  rewrite ?bytes_len_app;
+  rewrite ?bytes_len_app; rewrite ?bytes_len_cons2;
   repeat match goal with |- context [bytes_len [?x]] => change (bytes_len [x]) with 1 end;
   change (bytes_len []) with 0.
 Ltac wpos := f_equal; apply W_eq; posnorm; lia.
@@ -161,29 +172,29 @@ Lemma own_num v sz : wfp (ENum v sz) = true -> Parses parse_leaf (badp 16) 1 0 (
 Proof.
   intros Hw f d c b r Hbl Hf Hd HF. destruct f as [|f]; [lia|]. rewrite parse_leaf_S.
   pose proof (num_lex v sz r Hw (follow_sep _ _ HF)) as HL.
-  rewrite !(tokI c _ b _ r TNumber eq_refl Hbl HL). cbn [tkind_eqb orb].
-  rewrite (tokE c _ b _ r TNumber eq_refl Hbl HL). cbn [bind]. rewrite (num_literal v sz Hw). reflexivity.
+  rewrite !(tokI b _ r TNumber HL Hbl) by tx. cbn [tkind_eqb orb].
+  rewrite (tokE b _ r TNumber HL Hbl) by tx. cbn [bind]. rewrite (num_literal v sz Hw). reflexivity.
 Qed.
 
-Lemma own_bool bb : Parses parse_leaf (badp 16) 1 0 (if bb then kw_true else kw_false) (EBool bb).
+Lemma own_bool (bb : bool) : Parses parse_leaf (badp 16) 1 0 (if bb then kw_true else kw_false) (EBool bb).
 Proof.
   intros f d c b r Hbl Hf Hd HF. destruct f as [|f]; [lia|]. rewrite parse_leaf_S. destruct bb.
   - pose proof (lex_true r (follow_sep _ _ HF)) as HL.
-    rewrite !(tokI c _ b _ r TKeywordTrue eq_refl Hbl HL). cbn [tkind_eqb orb].
-    rewrite (tokE c _ b _ r TKeywordTrue eq_refl Hbl HL). reflexivity.
+    rewrite !(tokI b _ r TKeywordTrue HL Hbl) by tx. cbn [tkind_eqb orb].
+    rewrite (tokE b _ r TKeywordTrue HL Hbl) by tx. reflexivity.
   - pose proof (lex_false r (follow_sep _ _ HF)) as HL.
-    rewrite !(tokI c _ b _ r TKeywordFalse eq_refl Hbl HL). cbn [tkind_eqb orb].
-    rewrite (tokE c _ b _ r TKeywordFalse eq_refl Hbl HL). reflexivity.
+    rewrite !(tokI b _ r TKeywordFalse HL Hbl) by tx. cbn [tkind_eqb orb].
+    rewrite (tokE b _ r TKeywordFalse HL Hbl) by tx. reflexivity.
 Qed.
 
 Lemma own_var n : wf_name n = true -> Parses parse_leaf (badp 16) 3 0 n (EVar 0 [n]).
 Proof.
   intros Hw f d c b r Hbl Hf Hd HF. destruct f as [|[|[|f]]]; try lia. rewrite parse_leaf_S.
   pose proof (lex_name n r Hw (follow_sep _ _ HF)) as HL.
-  rewrite !(tokI c _ b _ r TIdentifier eq_refl Hbl HL). cbn [tkind_eqb orb].
-  rewrite parse_var_dots_S. rewrite (tokA c _ b _ r TIdentifier eq_refl Hbl HL).
-  rewrite (tokM c _ b _ r TIdentifier eq_refl Hbl HL). cbn [tkind_eqb].
-  rewrite parse_var_names_S. rewrite (tokE c _ b _ r TIdentifier eq_refl Hbl HL). cbn [bind rev app].
+  rewrite !(tokI b _ r TIdentifier HL Hbl) by tx. cbn [tkind_eqb orb].
+  rewrite parse_var_dots_S. rewrite (tokA b _ r TIdentifier HL Hbl) by tx.
+  rewrite (tokM b _ r TIdentifier HL Hbl) by tx. cbn [tkind_eqb].
+  rewrite parse_var_names_S. rewrite (tokE b _ r TIdentifier HL Hbl) by tx. cbn [bind rev app].
   destruct (at_linebreak _); [reflexivity|]. rewrite (follow_maybe _ r _ TDot HF eq_refl). reflexivity.
 Qed.
 
@@ -195,14 +206,14 @@ Proof.
   pose proof (pr_starts a 14 Wa) as Hst. pose proof (q14 a Qa) as Ha.
   destruct o; cbn [unop_text].
   - pose proof (lex_minus_s (pr 14 a) r Hst) as HL.
-    rewrite !(tokM c _ b [45] (pr 14 a ++ r) TMinus ltac:(tx) Hbl HL). cbn [tkind_eqb].
+    rewrite !(tokM b [45] (pr 14 a ++ r) TMinus HL Hbl) by tx. cbn [tkind_eqb].
     rewrite (depth_ok d _ Hd).
-    rewrite (Parses_use _ _ _ _ _ _ Ha f (S d) _ [] r _ eq_refl blank_nil) by (assumption || lia).
+    rewrite (PU _ _ _ _ _ _ Ha [] r blank_nil) by side.
     cbn [bind]. wpos.
   - pose proof (lex_excl_s (pr 14 a) r Hst) as HL.
-    rewrite !(tokM c _ b [33] (pr 14 a ++ r) TExclamation ltac:(tx) Hbl HL). cbn [tkind_eqb].
+    rewrite !(tokM b [33] (pr 14 a ++ r) TExclamation HL Hbl) by tx. cbn [tkind_eqb].
     rewrite (depth_ok d _ Hd).
-    rewrite (Parses_use _ _ _ _ _ _ Ha f (S d) _ [] r _ eq_refl blank_nil) by (assumption || lia).
+    rewrite (PU _ _ _ _ _ _ Ha [] r blank_nil) by side.
     cbn [bind]. wpos.
 Qed.
 
@@ -213,13 +224,13 @@ Lemma own_short s a : Q s -> Q a ->
 Proof.
   intros Qs Qa f d c b r Hbl Hf Hd HF. destruct f as [|f]; [lia|]. rewrite parse_short_S.
   pose proof (q14 a Qa) as Ha. pose proof (q16 s Qs) as Hs.
-  rewrite (Parses_use _ _ _ _ _ _ Ha f d c b ([96] ++ pr 16 s ++ r) _ ltac:(tx) Hbl)
-    by (lia || (apply follow_one with (k := TGrave); [apply lex_grave | reflexivity | reflexivity])).
+  rewrite (PU _ _ _ _ _ _ Ha b ([96] ++ pr 16 s ++ r) Hbl)
+    by (side || (apply follow_one with (k := TGrave); [apply lex_grave | reflexivity | reflexivity])).
   cbn [bind].
-  rewrite (tokA _ _ [] [96] (pr 16 s ++ r) TGrave eq_refl blank_nil (lex_grave _)).
-  rewrite (tokM _ _ [] [96] (pr 16 s ++ r) TGrave eq_refl blank_nil (lex_grave _)). cbn [tkind_eqb].
-  rewrite (Parses_use _ _ _ _ _ _ Hs f d _ [] r _ eq_refl blank_nil)
-    by (lia || (revert HF; apply follow_weaken; intro k; apply badp_mono; lia)).
+  rewrite (tokA [] [96] (pr 16 s ++ r) TGrave (lex_grave _) blank_nil) by tx.
+  rewrite (tokM [] [96] (pr 16 s ++ r) TGrave (lex_grave _) blank_nil) by tx. cbn [tkind_eqb].
+  rewrite (PU _ _ _ _ _ _ Hs [] r blank_nil)
+    by (side || (revert HF; apply follow_weaken; intro k; apply badp_mono; lia)).
   cbn [bind]. wpos.
 Qed.
 
@@ -232,22 +243,22 @@ Proof.
   intros Ql Qr Qa Wr f d c b r Hbl Hf Hd HF. destruct f as [|f]; [lia|]. rewrite parse_slice_S.
   pose proof (q13 a Qa) as Ha. pose proof (gspec l Ql) as Hl. pose proof (q0 r0 Qr) as Hr.
   pose proof (pr_starts r0 0 Wr) as Hst.
-  rewrite (Parses_use _ _ _ _ _ _ Ha f d c b ([91] ++ gtext l ++ [58] ++ pr 0 r0 ++ [93] ++ r) _ ltac:(tx) Hbl)
-    by (lia || (apply follow_one with (k := TBracketOpen); [apply lex_bopen | reflexivity | reflexivity])).
+  rewrite (PU _ _ _ _ _ _ Ha b ([91] ++ gtext l ++ [58] ++ pr 0 r0 ++ [93] ++ r) Hbl)
+    by (side || (apply follow_one with (k := TBracketOpen); [apply lex_bopen | reflexivity | reflexivity])).
   cbn [bind].
-  rewrite (tokA _ _ [] [91] (gtext l ++ [58] ++ pr 0 r0 ++ [93] ++ r) TBracketOpen eq_refl blank_nil (lex_bopen _)).
-  rewrite (tokM _ _ [] [91] (gtext l ++ [58] ++ pr 0 r0 ++ [93] ++ r) TBracketOpen eq_refl blank_nil (lex_bopen _)).
+  rewrite (tokA [] [91] (gtext l ++ [58] ++ pr 0 r0 ++ [93] ++ r) TBracketOpen (lex_bopen _) blank_nil) by tx.
+  rewrite (tokM [] [91] (gtext l ++ [58] ++ pr 0 r0 ++ [93] ++ r) TBracketOpen (lex_bopen _) blank_nil) by tx.
   cbn [tkind_eqb].
   pose proof (lex_colon_s (pr 0 r0) ([93] ++ r) Hst) as HLc.
-  rewrite (Parses_use _ _ _ _ _ _ Hl f d _ [] ([58] ++ pr 0 r0 ++ [93] ++ r) _ eq_refl blank_nil)
-    by (lia || (apply follow_one with (k := TColon); [rewrite <- app_assoc in HLc; exact HLc | reflexivity | reflexivity])).
+  rewrite (PU _ _ _ _ _ _ Hl [] ([58] ++ pr 0 r0 ++ [93] ++ r) blank_nil)
+    by (side || (apply follow_one with (k := TColon); [exact HLc | reflexivity | reflexivity])).
   cbn [bind].
-  rewrite (tokE _ _ [] [58] (pr 0 r0 ++ [93] ++ r) TColon eq_refl blank_nil) by (rewrite <- app_assoc in HLc; exact HLc).
+  rewrite (tokE [] [58] (pr 0 r0 ++ [93] ++ r) TColon HLc blank_nil) by tx.
   cbn [bind].
-  rewrite (Parses_use _ _ _ _ _ _ Hr f d _ [] ([93] ++ r) _ eq_refl blank_nil)
-    by (lia || (apply follow_one with (k := TBracketClose); [apply lex_bclose | destruct (guard_paren full r0); reflexivity | reflexivity])).
+  rewrite (PU _ _ _ _ _ _ Hr [] ([93] ++ r) blank_nil)
+    by (side || (apply follow_one with (k := TBracketClose); [apply lex_bclose | destruct (guard_paren full r0); reflexivity | reflexivity])).
   cbn [bind].
-  rewrite (tokE _ _ [] [93] r TBracketClose eq_refl blank_nil (lex_bclose _)). cbn [bind]. wpos.
+  rewrite (tokE [] [93] r TBracketClose (lex_bclose _) blank_nil) by tx. cbn [bind]. wpos.
 Qed.
 
 (* ---------- assignment and ternary: right-associative through parse_expr ---------- *)
@@ -259,12 +270,12 @@ Proof.
   rewrite (depth_ok d _ Hd). rewrite parse_assign_S.
   pose proof (qlev a 2 Qa ltac:(lia)) as Ha. change (skipn (2 - 2) level_ops) with level_ops in Ha. unfold plev in Ha.
   pose proof (q0 b0 Qb) as Hb.
-  rewrite (Parses_use _ _ _ _ _ _ Ha f (S d) c b ([32] ++ [61] ++ 32 :: pr 0 b0 ++ r) _ ltac:(tx) Hbl)
-    by (lia || (apply follow_sp with (k := TEqual); [apply lex_equal | reflexivity])).
+  rewrite (PU _ _ _ _ _ _ Ha b ([32] ++ [61] ++ 32 :: pr 0 b0 ++ r) Hbl)
+    by (side || (apply follow_sp with (k := TEqual); [apply lex_equal | reflexivity])).
   cbn [bind].
-  rewrite (tokM _ _ [32] [61] (32 :: pr 0 b0 ++ r) TEqual eq_refl blank_sp (lex_equal _)). cbn [tkind_eqb].
-  rewrite (Parses_use _ _ _ _ _ _ Hb f (S d) _ [32] r _ eq_refl blank_sp)
-    by (lia || (revert HF; apply follow_weaken; intro k; apply bad0_le; unfold guard_paren; destruct full, (ends_open b0); cbn; congruence)).
+  rewrite (tokM [32] [61] (32 :: pr 0 b0 ++ r) TEqual (lex_equal _) blank_sp) by tx. cbn [tkind_eqb].
+  rewrite (PU _ _ _ _ _ _ Hb [32] r blank_sp)
+    by (side || (revert HF; apply follow_weaken; intro k; apply bad0_le; unfold guard_paren; destruct full, (ends_open b0); cbn; congruence)).
   cbn [bind].
   rewrite (follow_maybe _ r _ TQuestion HF) by (destruct (ends_open b0); reflexivity).
   wpos.
@@ -281,29 +292,29 @@ Proof.
   - (* no else *)
     assert (Ef : f0 = EBlock []) by (destruct f0 as [| | | | | | | | |[|? ?]|]; try discriminate; reflexivity). subst f0.
     cbn [ends_open] in HF.
-    rewrite (Parses_use _ _ _ _ _ _ Hc f (S d) c b ([32] ++ [63] ++ 32 :: pr 0 t ++ r) _ ltac:(tx) Hbl)
-      by (lia || (apply follow_sp with (k := TQuestion); [apply lex_question | reflexivity])).
+    rewrite (PU _ _ _ _ _ _ Hc b ([32] ++ [63] ++ 32 :: pr 0 t ++ r) Hbl)
+      by (side || (apply follow_sp with (k := TQuestion); [apply lex_question | reflexivity])).
     cbn [bind].
-    rewrite (tokM _ _ [32] [63] (32 :: pr 0 t ++ r) TQuestion eq_refl blank_sp (lex_question _)). cbn [tkind_eqb].
-    rewrite (Parses_use _ _ _ _ _ _ Ht f (S d) _ [32] r _ eq_refl blank_sp)
-      by (lia || (revert HF; apply follow_weaken; intro k; apply bad0_mono)).
+    rewrite (tokM [32] [63] (32 :: pr 0 t ++ r) TQuestion (lex_question _) blank_sp) by tx. cbn [tkind_eqb].
+    rewrite (PU _ _ _ _ _ _ Ht [32] r blank_sp)
+      by (side || (revert HF; apply follow_weaken; intro k; apply bad0_mono)).
     cbn [bind].
     rewrite (follow_maybe _ r _ TColon HF eq_refl). wpos.
   - (* with else *)
     assert (Eo : ends_open (ETern c0 t f0) = ends_open f0).
     { cbn [ends_open]. destruct f0 as [| | | | | | | | |[|? ?]|]; try reflexivity. discriminate. }
     rewrite Eo in HF.
-    rewrite (Parses_use _ _ _ _ _ _ Hc f (S d) c b ([32] ++ [63] ++ 32 :: gtext t ++ [32; 58; 32] ++ pr 0 f0 ++ r) _ ltac:(tx) Hbl)
-      by (lia || (apply follow_sp with (k := TQuestion); [apply lex_question | reflexivity])).
+    rewrite (PU _ _ _ _ _ _ Hc b ([32] ++ [63] ++ 32 :: gtext t ++ [32; 58; 32] ++ pr 0 f0 ++ r) Hbl)
+      by (side || (apply follow_sp with (k := TQuestion); [apply lex_question | reflexivity])).
     cbn [bind].
-    rewrite (tokM _ _ [32] [63] (32 :: gtext t ++ [32; 58; 32] ++ pr 0 f0 ++ r) TQuestion eq_refl blank_sp (lex_question _)).
+    rewrite (tokM [32] [63] (32 :: gtext t ++ [32; 58; 32] ++ pr 0 f0 ++ r) TQuestion (lex_question _) blank_sp) by tx.
     cbn [tkind_eqb].
-    rewrite (Parses_use _ _ _ _ _ _ Hg f (S d) _ [32] ([32] ++ [58] ++ 32 :: pr 0 f0 ++ r) _ ltac:(tx) blank_sp)
-      by (lia || (apply follow_sp with (k := TColon); [apply lex_colon_b | reflexivity])).
+    rewrite (PU _ _ _ _ _ _ Hg [32] ([32] ++ [58] ++ 32 :: pr 0 f0 ++ r) blank_sp)
+      by (side || (apply follow_sp with (k := TColon); [apply lex_colon_b | reflexivity])).
     cbn [bind].
-    rewrite (tokM _ _ [32] [58] (32 :: pr 0 f0 ++ r) TColon eq_refl blank_sp (lex_colon_b _)). cbn [tkind_eqb].
-    rewrite (Parses_use _ _ _ _ _ _ Hf0 f (S d) _ [32] r _ eq_refl blank_sp)
-      by (lia || (revert HF; apply follow_weaken; intro k; apply bad0_le; unfold guard_paren; destruct full, (ends_open f0); cbn; congruence)).
+    rewrite (tokM [32] [58] (32 :: pr 0 f0 ++ r) TColon (lex_colon_b _) blank_sp) by tx. cbn [tkind_eqb].
+    rewrite (PU _ _ _ _ _ _ Hf0 [32] r blank_sp)
+      by (side || (revert HF; apply follow_weaken; intro k; apply bad0_le; unfold guard_paren; destruct full, (ends_open f0); cbn; congruence)).
     cbn [bind]. wpos.
 Qed.
 
@@ -337,10 +348,12 @@ Definition ElemOK (x : expr) : Prop := Q x /\ wfp x = true.
 
 Lemma in_size_sum x (es : list expr) : In x es -> (size x + length es <= list_sum (map size es) + 1)%nat.
 Proof.
-  induction es as [|y es IH]; [contradiction|]. cbn [In map list_sum length]. pose proof (size_pos y).
+  induction es as [|y es IH]; [contradiction|]. cbn [In map length].
+  change (list_sum (size y :: map size es)) with (size y + list_sum (map size es))%nat. pose proof (size_pos y).
   intros [-> | Hin]; [|specialize (IH Hin); lia].
   clear IH. assert (length es <= list_sum (map size es))%nat; [|lia].
-  induction es as [|z es IH]; cbn [length map list_sum]; [lia|]. pose proof (size_pos z). lia.
+  induction es as [|z es IH]; cbn [length map]; [cbn; lia|].
+  change (list_sum (size z :: map size es)) with (size z + list_sum (map size es))%nat. pose proof (size_pos z). lia.
 Qed.
 
 Lemma in_depth_max (g : expr -> nat) x (es : list expr) : In x es -> (g x <= list_max (map g es))%nat.
@@ -351,6 +364,9 @@ Qed.
 
 Lemma follow_comma o rest : Follow (bad0 o) ([44] ++ rest).
 Proof. apply follow_one with (k := TComma); [apply lex_comma | destruct o; reflexivity | reflexivity]. Qed.
+
+Lemma sepby_cons2 sp (x y : text) l : sepby sp (x :: y :: l) = x ++ sp ++ sepby sp (y :: l).
+Proof. reflexivity. Qed.
 
 Lemma block_loop es : forall acc f d c b r0, es <> [] -> Forall ElemOK es -> blank b ->
   (forall x, In x es -> K * size x + length es + 1 <= f)%nat ->
@@ -365,22 +381,23 @@ Proof.
   destruct es as [|y es].
   - cbn [map sepby].
     rewrite (starts_is c b (pr 0 x) ([125] ++ r0) TBraceClose Hbl Hst (or_intror eq_refl)).
-    rewrite (Parses_use _ _ _ _ _ _ Hx f d c b ([125] ++ r0) _ eq_refl Hbl)
-      by (cbn [length] in *; lia || (apply follow_one with (k := TBraceClose); [apply lex_cclose | destruct (guard_paren full x); reflexivity | reflexivity])).
+    rewrite (PU _ _ _ _ _ _ Hx b ([125] ++ r0) Hbl)
+      by (cbn [length] in *; side || (apply follow_one with (k := TBraceClose); [apply lex_cclose | destruct (guard_paren full x); reflexivity | reflexivity])).
     cbn [bind].
-    rewrite (tokL _ _ [] [125] r0 TBraceClose eq_refl blank_nil (lex_cclose _)).
-    rewrite (tokI _ _ [] [125] r0 TBraceClose eq_refl blank_nil (lex_cclose _)). cbn [tkind_eqb rev]. reflexivity.
-  - cbn [map sepby].
+    rewrite (tokL [] [125] r0 TBraceClose (lex_cclose _) blank_nil) by tx.
+    rewrite (tokI [] [125] r0 TBraceClose (lex_cclose _) blank_nil) by tx. cbn [tkind_eqb rev]. reflexivity.
+  - cbn [map]. rewrite sepby_cons2.
     replace (b ++ (pr 0 x ++ [44; 32] ++ sepby [44; 32] (pr 0 y :: map (pr 0) es)) ++ [125] ++ r0)
       with (b ++ pr 0 x ++ ([44] ++ [32] ++ sepby [44; 32] (map (pr 0) (y :: es)) ++ [125] ++ r0)) by tx.
     rewrite (starts_is c b (pr 0 x) _ TBraceClose Hbl Hst (or_intror eq_refl)).
-    rewrite (Parses_use _ _ _ _ _ _ Hx f d c b _ _ eq_refl Hbl) by (cbn [length] in *; lia || apply follow_comma).
+    rewrite (PU _ _ _ _ _ _ Hx b ([44] ++ [32] ++ sepby [44; 32] (map (pr 0) (y :: es)) ++ [125] ++ r0) Hbl)
+      by (cbn [length] in *; side || apply follow_comma).
     cbn [bind].
-    rewrite (tokL _ _ [] [44] _ TComma eq_refl blank_nil (lex_comma _)).
-    rewrite (tokI _ _ [] [44] _ TComma eq_refl blank_nil (lex_comma _)). cbn [tkind_eqb].
-    rewrite (tokE _ _ [] [44] _ TComma eq_refl blank_nil (lex_comma _)). cbn [bind].
+    rewrite (tokL [] [44] _ TComma (lex_comma _) blank_nil) by tx.
+    rewrite (tokI [] [44] _ TComma (lex_comma _) blank_nil) by tx. cbn [tkind_eqb].
+    rewrite (tokE [] [44] _ TComma (lex_comma _) blank_nil) by tx. cbn [bind].
     rewrite (IH (x :: acc) f d _ [32] r0); auto with rt; try congruence.
-    + cbn [rev]. rewrite <- app_assoc. cbn [app]. f_equal. apply W_eq. cbn [map]. posnorm. lia.
+    + cbn [rev map]. rewrite <- (app_assoc (rev acc)). apply (f_equal (POk (rev acc ++ x :: y :: es))). apply W_eq. posnorm. lia.
     + intros z Hz. specialize (Hf z (or_intror Hz)). cbn [length] in *. lia.
     + intros z Hz. apply Hd. right. exact Hz.
 Qed.
@@ -398,20 +415,21 @@ Proof.
   destruct es as [|y es].
   - cbn [map sepby].
     rewrite (starts_is c b (pr 0 x) ([41] ++ r0) TParenClose Hbl Hst (or_introl eq_refl)).
-    rewrite (Parses_use _ _ _ _ _ _ Hx f d c b ([41] ++ r0) _ eq_refl Hbl)
-      by (cbn [length] in *; lia || (apply follow_one with (k := TParenClose); [apply lex_pclose | destruct (guard_paren full x); reflexivity | reflexivity])).
+    rewrite (PU _ _ _ _ _ _ Hx b ([41] ++ r0) Hbl)
+      by (cbn [length] in *; side || (apply follow_one with (k := TParenClose); [apply lex_pclose | destruct (guard_paren full x); reflexivity | reflexivity])).
     cbn [bind].
-    rewrite (tokI _ _ [] [41] r0 TParenClose eq_refl blank_nil (lex_pclose _)). cbn [tkind_eqb rev]. reflexivity.
-  - cbn [map sepby].
+    rewrite (tokI [] [41] r0 TParenClose (lex_pclose _) blank_nil) by tx. cbn [tkind_eqb rev]. reflexivity.
+  - cbn [map]. rewrite sepby_cons2.
     replace (b ++ (pr 0 x ++ [44; 32] ++ sepby [44; 32] (pr 0 y :: map (pr 0) es)) ++ [41] ++ r0)
       with (b ++ pr 0 x ++ ([44] ++ [32] ++ sepby [44; 32] (map (pr 0) (y :: es)) ++ [41] ++ r0)) by tx.
     rewrite (starts_is c b (pr 0 x) _ TParenClose Hbl Hst (or_introl eq_refl)).
-    rewrite (Parses_use _ _ _ _ _ _ Hx f d c b _ _ eq_refl Hbl) by (cbn [length] in *; lia || apply follow_comma).
+    rewrite (PU _ _ _ _ _ _ Hx b ([44] ++ [32] ++ sepby [44; 32] (map (pr 0) (y :: es)) ++ [41] ++ r0) Hbl)
+      by (cbn [length] in *; side || apply follow_comma).
     cbn [bind].
-    rewrite (tokI _ _ [] [44] _ TComma eq_refl blank_nil (lex_comma _)). cbn [tkind_eqb].
-    rewrite (tokE _ _ [] [44] _ TComma eq_refl blank_nil (lex_comma _)). cbn [bind].
+    rewrite (tokI [] [44] _ TComma (lex_comma _) blank_nil) by tx. cbn [tkind_eqb].
+    rewrite (tokE [] [44] _ TComma (lex_comma _) blank_nil) by tx. cbn [bind].
     rewrite (IH (x :: acc) f d _ [32] r0); auto with rt; try congruence.
-    + cbn [rev]. rewrite <- app_assoc. cbn [app]. f_equal. apply W_eq. cbn [map]. posnorm. lia.
+    + cbn [rev map]. rewrite <- (app_assoc (rev acc)). apply (f_equal (POk (rev acc ++ x :: y :: es))). apply W_eq. posnorm. lia.
     + intros z Hz. specialize (Hf z (or_intror Hz)). cbn [length] in *. lia.
     + intros z Hz. apply Hd. right. exact Hz.
 Qed.
@@ -421,15 +439,15 @@ Lemma own_block es : Forall ElemOK es ->
 Proof.
   intros Hall f d c b r Hbl Hf Hd HF. cbn [size bd body] in *. destruct f as [|f]; [unfold K in *; lia|].
   rewrite parse_leaf_S.
-  rewrite !(tokI c _ b [123] (sepby [44; 32] (map (pr 0) es) ++ [125] ++ r) TBraceOpen ltac:(tx) Hbl (lex_copen _)). cbn [tkind_eqb].
-  rewrite (tokE c _ b [123] (sepby [44; 32] (map (pr 0) es) ++ [125] ++ r) TBraceOpen ltac:(tx) Hbl (lex_copen _)). cbn [bind].
+  rewrite !(tokI b [123] (sepby [44; 32] (map (pr 0) es) ++ [125] ++ r) TBraceOpen (lex_copen _) Hbl) by tx. cbn [tkind_eqb].
+  rewrite (tokE b [123] (sepby [44; 32] (map (pr 0) es) ++ [125] ++ r) TBraceOpen (lex_copen _) Hbl) by tx. cbn [bind].
   destruct es as [|x es].
   - cbn [map sepby app]. destruct f as [|f]; [unfold K in *; lia|]. rewrite parse_block_S.
-    rewrite (tokI _ _ [] [125] r TBraceClose eq_refl blank_nil (lex_cclose _)). cbn [tkind_eqb rev bind].
-    rewrite (tokE _ _ [] [125] r TBraceClose eq_refl blank_nil (lex_cclose _)). cbn [bind]. wpos.
+    rewrite (tokI [] [125] r TBraceClose (lex_cclose _) blank_nil) by tx. cbn [tkind_eqb rev bind].
+    rewrite (tokE [] [125] r TBraceClose (lex_cclose _) blank_nil) by tx. cbn [bind]. wpos.
   - rewrite (block_loop (x :: es) [] f d _ [] r); auto with rt; try congruence.
-    + cbn [bind rev app]. rewrite (tokE _ _ [] [125] r TBraceClose eq_refl blank_nil (lex_cclose _)). cbn [bind]. wpos.
-    + intros z Hz. pose proof (in_size_sum z (x :: es) Hz). unfold K in *. lia.
+    + cbn [bind]. change (rev [] ++ x :: es) with (x :: es). rewrite (tokE [] [125] r TBraceClose (lex_cclose _) blank_nil) by tx. cbn [bind]. wpos.
+    + intros z Hz. pose proof (in_size_sum z (x :: es) Hz). cbn [length] in *. unfold K in *. lia.
     + intros z Hz. pose proof (in_depth_max (fun x => S (pd 0 x)) z (x :: es) Hz). cbn beta in *. lia.
 Qed.
 
@@ -438,19 +456,19 @@ Lemma own_call f0 args : Q f0 -> Forall ElemOK args ->
 Proof.
   intros Qf Hall f d c b r Hbl Hf Hd HF. cbn [size bd body] in *. destruct f as [|f]; [unfold K in *; lia|].
   rewrite parse_call_S. pose proof (q16 f0 Qf) as Hf0. pose proof (size_pos f0) as Hsz.
-  rewrite (Parses_use _ _ _ _ _ _ Hf0 f d c b ([40] ++ sepby [44; 32] (map (pr 0) args) ++ [41] ++ r) _ ltac:(tx) Hbl)
-    by (unfold K in *; lia || (apply follow_one with (k := TParenOpen); [apply lex_popen | reflexivity | reflexivity])).
+  rewrite (PU _ _ _ _ _ _ Hf0 b ([40] ++ sepby [44; 32] (map (pr 0) args) ++ [41] ++ r) Hbl)
+    by (unfold K in *; side || (apply follow_one with (k := TParenOpen); [apply lex_popen | reflexivity | reflexivity])).
   cbn [bind].
-  rewrite (tokA _ _ [] [40] (sepby [44; 32] (map (pr 0) args) ++ [41] ++ r) TParenOpen eq_refl blank_nil (lex_popen _)).
-  rewrite (tokM _ _ [] [40] (sepby [44; 32] (map (pr 0) args) ++ [41] ++ r) TParenOpen eq_refl blank_nil (lex_popen _)).
+  rewrite (tokA [] [40] (sepby [44; 32] (map (pr 0) args) ++ [41] ++ r) TParenOpen (lex_popen _) blank_nil) by tx.
+  rewrite (tokM [] [40] (sepby [44; 32] (map (pr 0) args) ++ [41] ++ r) TParenOpen (lex_popen _) blank_nil) by tx.
   cbn [tkind_eqb].
   destruct args as [|x args].
   - cbn [map sepby app]. destruct f as [|f]; [unfold K in *; lia|]. rewrite parse_args_S.
-    rewrite (tokI _ _ [] [41] r TParenClose eq_refl blank_nil (lex_pclose _)). cbn [tkind_eqb rev bind].
-    rewrite (tokE _ _ [] [41] r TParenClose eq_refl blank_nil (lex_pclose _)). cbn [bind]. wpos.
+    rewrite (tokI [] [41] r TParenClose (lex_pclose _) blank_nil) by tx. cbn [tkind_eqb rev bind].
+    rewrite (tokE [] [41] r TParenClose (lex_pclose _) blank_nil) by tx. cbn [bind]. wpos.
   - rewrite (args_loop (x :: args) [] f d _ [] r); auto with rt; try congruence.
-    + cbn [bind rev app]. rewrite (tokE _ _ [] [41] r TParenClose eq_refl blank_nil (lex_pclose _)). cbn [bind]. wpos.
-    + intros z Hz. pose proof (in_size_sum z (x :: args) Hz). unfold K in *. lia.
+    + cbn [bind]. change (rev [] ++ x :: args) with (x :: args). rewrite (tokE [] [41] r TParenClose (lex_pclose _) blank_nil) by tx. cbn [bind]. wpos.
+    + intros z Hz. pose proof (in_size_sum z (x :: args) Hz). cbn [length] in *. unfold K in *. lia.
     + intros z Hz. pose proof (in_depth_max (fun x => S (pd 0 x)) z (x :: args) Hz). cbn beta in *. lia.
 Qed.
 
